@@ -322,3 +322,52 @@ def style_map_text(rng, pools=None, n=None, hostile=0.2, allow_sep=False, allow_
                 mp = gen_mapping(rng, pools, hostile, allow_sep, allow_bang, hid)
             lines.append(print_mapping(mp, rng))
     return "\n".join(lines)
+
+
+# ---------------------------------------------------------------------------
+# layout of a whole style map: several mappings, one per line, between lines that carry no mapping
+
+# ends of identifiers that matter to anything that looks at the EDGE of a line or at the raw text before it is tokenised: an escaped
+# backslash (printed `\\`, so the line ends in a backslash), the escapes of line breaks and tabs, the comment sign, quotes, operators
+EDGE_TAILS = ["\\", "\\", "\\\\", "x\\", "\\\\\\", "\n", "\r", "\t", "\\n", "n", "#", "'", "=>", ">", "|", "!", ":", "^", ".", "é"]
+FILLER_LINES = ["", "", "   ", "\t", "\r", "# comment", "#", "  # p => h1", "# ends in a backslash \\", "#\\", "# p => h2 \\\\", "#'", "# => !", "#p => h1:fresh",
+                "   ", "# \\n"]
+
+
+def edge_mapping(rng, mp):
+    """make the printed mapping END in a tag name or class name (no `:fresh`, no separator, no attribute after it) and let that
+    name end in one of EDGE_TAILS (in place)"""
+    if mp["p"] == "ignore" or not mp["p"]:
+        mp["p"] = [{"names": [rng.choice(["div", "p", "span", "h1"])], "events": [], "fresh": False, "sep": None}]
+    e = mp["p"][-1]
+    e["fresh"], e["sep"] = False, None
+    while e["events"] and e["events"][-1][0] == "attr":
+        e["events"].pop()
+    tail = rng.choice(EDGE_TAILS)
+    if e["events"]:
+        e["events"][-1][1] += tail
+    elif rng.random() < 0.5:
+        e["names"][-1] += tail
+    else:
+        e["events"].append(["cls", rng.choice(["note", "a", "x-y"]) + tail])
+    return mp
+
+
+def layout_text(rng, lines, fillers=0.3):
+    """the lines of a style map as ONE text: each line ended by LF or CR LF (one convention or mixed), blank lines, white-space lines and
+    comment lines (also comments ending in a backslash) before, between and after them, with or without a line end after the last line.
+    Every such text means the same list of mappings."""
+    out = []
+    while rng.random() < fillers * 0.7:
+        out.append(rng.choice(FILLER_LINES))
+    for l in lines:
+        out.append(l)
+        while rng.random() < fillers:
+            out.append(rng.choice(FILLER_LINES))
+    eol = rng.choice(["\n", "\n", "\r\n", None])
+    text = []
+    for i, l in enumerate(out):
+        text.append(l)
+        if i < len(out) - 1 or rng.random() < 0.5:
+            text.append(eol or rng.choice(["\n", "\r\n"]))
+    return "".join(text)
